@@ -23,6 +23,13 @@ def load_extra():
         for i, e in json.load(open(p)).items():
             add(i, e.get("level", EXP), e["technique"], e["text"], e["note"], e.get("ref"))
 load_extra()
+import glob
+for f in sorted(glob.glob(f"{ROOT}/tools/manifest.d/C*.json")):
+    i = os.path.basename(f)[:-5]
+    e = json.load(open(f))
+    # a check is only claimed once its monitor exists
+    if os.path.exists(f"{ROOT}/harness/props/{i.lower()}_test.go") or os.path.exists(f"{ROOT}/harness/snapfs/{i.lower()}_test.go"):
+        add(i, e.get("level", EXP), e["technique"], e["text"], e["note"], e.get("ref"))
 
 try:
     hooks = subprocess.check_output(["git", "-C", "/repo", "log", "--format=%H", "--grep=^verif:"], text=True).split()
